@@ -1,4 +1,4 @@
 From Coq Require Extraction ExtrOcamlBasic.
-From Verif Require Import model.Qsl.
+From Verif Require Import model.QslBody.
 Extraction Language OCaml.
 Extraction "../ocaml/build/mC18.ml" corr_C18.
